@@ -155,6 +155,19 @@ claim('C04',
       'Heff is Hermitian whenever Mat(H) is. Bra and ket have independent bond profiles, charges are on.',
       'Data-independent control flow (multilinearity); sizes L <= 3, d <= 3, D <= 3; two-site check compares with the '
       'index sum on merged tensors.')
+claim('C06',
+      'TLC trace validation (TraceHamiltonian.tla): the MPO tensors returned by each constructor are contracted by TLC and '
+      'compared entry by entry with the textbook operator defined in Hamiltonian.tla from the parameters (fermions: '
+      'creation / annihilation operators on occupation configurations with explicit Jordan-Wigner parities); Hermiticity, '
+      'block sparsity of every tensor and charge conservation evaluated exactly on the same data',
+      'Exact comparison (integers after scaling; spin-1 and Bose-Hubbard after a similarity transformation by site weights) '
+      'for every L from 1 up to the dense reach of TLC and for parameter tuples in {-2..2}^3 covering all vanishing-coupling '
+      'combinations; the dense operator is trilinear in the parameters, so the thorough tier (all 124 non-zero tuples per '
+      'model and size) determines it for all real parameters. An exception for a non-zero operator is a rejected event '
+      '(this is how finding F1 showed for L = 1 / vanishing couplings).',
+      'L <= 3 (d = 2: 5) because TLC contracts d^L x d^L matrices; complex Gaussian-integer coefficient vectors for the '
+      'linear fermionic operators; Jordan-Wigner convention: Z string to the right, as linear_fermionic_mpo documents by '
+      'construction.')
 
 def main():
     props = [json.loads(l) for l in open(os.path.join(VERIF, 'properties.jsonl'))]
